@@ -2,7 +2,9 @@
 // (lean/YaegiVerif/Model/Unwind.lean `UnwindFacts`):
 //
 //	prepend{Call,CallBin,Builtin}  the shape of the assignment to f.deferred at the three registration sites
-//	argsByRef                      call(): `val[i+1] = v(f)` (the frame slot itself is stored)
+//	argsByRef{Call,Bin,Builtin}    what the three sites keep of an argument: `val[i+1] = v(f)` (the frame slot
+//	                               itself: by reference) or `val[i+1] = copyDeferArg(v(f))` with copyDeferArg
+//	                               ending in `c := reflect.New(v.Type()).Elem(); c.Set(v); return c` (a copy)
 //	exitSteps / ifSteps            the statements of the function literal deferred by runCfg, in order
 //	recoverReadsAnc / recoverClears  _recover: which field is read, and that it is set to nil afterwards
 //	panicPassesValue               _panic: panic(value(f))
@@ -170,6 +172,60 @@ func firstDefer(fd *ast.FuncDecl) ast.Node {
 	return nil
 }
 
+// helperCopies: copyDeferArg exists and ends in `c := reflect.New(v.Type()).Elem(); c.Set(v); return c`
+// (the value handed back is a fresh one). "" when there is no such function.
+func helperCopies(fd *ast.FuncDecl) string {
+	if fd == nil {
+		return ""
+	}
+	if fd.Type.Params == nil || len(fd.Type.Params.List) != 1 || len(fd.Type.Params.List[0].Names) != 1 ||
+		fd.Type.Params.List[0].Names[0].Name != "v" {
+		return "unrecognised"
+	}
+	l := fd.Body.List
+	if n := len(l); n >= 3 && str(l[n-3]) == "c := reflect.New(v.Type()).Elem()" && str(l[n-2]) == "c.Set(v)" && str(l[n-1]) == "return c" {
+		return "copies"
+	}
+	return "unrecognised"
+}
+
+// argsByRefFact: "true" when the defer branch `site` stores the argument value `raw` itself, "false" when it
+// stores copyDeferArg(raw) and copyDeferArg makes a copy. Anything else is recorded as unrecognised and
+// the executable model falls back to "by reference".
+func argsByRefFact(site ast.Node, what, raw, copies string) string {
+	bad := func(msg string) string {
+		notes = append(notes, msg)
+		return "true"
+	}
+	if site == nil {
+		return bad(what + ": the defer branch was not found")
+	}
+	fact := ""
+	ast.Inspect(site, func(m ast.Node) bool {
+		as, ok := m.(*ast.AssignStmt)
+		if !ok || len(as.Lhs) != 1 || len(as.Rhs) != 1 || str(as.Lhs[0]) != "val[i+1]" {
+			return true
+		}
+		switch rhs := str(as.Rhs[0]); {
+		case fact != "":
+			fact = bad(what + " stores deferred arguments more than once")
+		case rhs == raw:
+			fact = "true"
+		case rhs == "copyDeferArg("+raw+")" && copies == "copies":
+			fact = "false"
+		case rhs == "copyDeferArg("+raw+")":
+			fact = bad(what + " stores copyDeferArg(…) but copyDeferArg was not recognised as making a copy")
+		default:
+			fact = bad(what + " stores a deferred argument as " + rhs)
+		}
+		return true
+	})
+	if fact == "" {
+		return bad(what + ": the store of deferred arguments was not found")
+	}
+	return fact
+}
+
 func stepList(xs []string) string { return "[" + strings.Join(xs, ", ") + "]" }
 
 func main() {
@@ -188,7 +244,7 @@ func main() {
 		}
 		hashes := "[" + strings.Join([]string{
 			strings.Trim(common.HashTable(fsetRun, run, [][2]string{{"", "_recover"}, {"", "_panic"},
-				{"", "genBuiltinDeferWrapper"}, {"", "genFunctionWrapper"}}), "[]"),
+				{"", "genBuiltinDeferWrapper"}, {"", "genFunctionWrapper"}, {"", "copyDeferArg"}}), "[]"),
 			strings.Trim(common.HashTable(fsetProg, prog, [][2]string{{"Interpreter", "Execute"}}), "[]"),
 			strings.Trim(common.HashTable(fsetInterp, interpFile, [][2]string{{"", "newFrame"}, {"frame", "clone"}}), "[]"),
 			fmt.Sprintf("(%s, %s)", common.LeanStr("runCfg: deferred function"), common.LeanStr(blockHash(firstDefer(common.FindFunc(run, "", "runCfg"))))),
@@ -201,33 +257,11 @@ func main() {
 		pBin := prependFact(common.FindFunc(run, "", "callBin"), "callBin")
 		pBuiltin := prependFact(common.FindFunc(run, "", "genBuiltinDeferWrapper"), "genBuiltinDeferWrapper")
 
-		// --- call(): how the arguments are stored in the deferred entry
-		argsByRef := ""
-		if fd := common.FindFunc(run, "", "call"); fd != nil {
-			ast.Inspect(fd, func(n ast.Node) bool {
-				ifs, ok := n.(*ast.IfStmt)
-				if !ok || str(ifs.Cond) != "n.anc.kind == deferStmt" {
-					return true
-				}
-				ast.Inspect(ifs.Body, func(m ast.Node) bool {
-					as, ok := m.(*ast.AssignStmt)
-					if ok && len(as.Lhs) == 1 && str(as.Lhs[0]) == "val[i+1]" {
-						switch str(as.Rhs[0]) {
-						case "v(f)":
-							argsByRef = "true"
-						default:
-							argsByRef = unrec("call stores a deferred argument as " + str(as.Rhs[0]))
-						}
-					}
-					return true
-				})
-				return false
-			})
-		}
-
-		if argsByRef == "" {
-			argsByRef = unrec("call: the store of deferred arguments was not found")
-		}
+		// --- how the three sites store the arguments in the deferred entry
+		copies := helperCopies(common.FindFunc(run, "", "copyDeferArg"))
+		refCall := argsByRefFact(deferBranchOfCall(common.FindFunc(run, "", "call")), "call", "v(f)", copies)
+		refBin := argsByRefFact(deferClauseOfCallBin(common.FindFunc(run, "", "callBin")), "callBin", "getBinValue(getMapType, v, f)", copies)
+		refBuiltin := argsByRefFact(deferBranchOfCall(common.FindFunc(run, "", "genBuiltinDeferWrapper")), "genBuiltinDeferWrapper", "v(f)", copies)
 
 		// --- runCfg: the deferred function literal
 		exitSteps, ifSteps := []string{".unrecognised"}, []string{".unrecognised"}
@@ -360,7 +394,9 @@ def facts : UnwindFacts :=
   { prependCall := %s,
     prependCallBin := %s,
     prependBuiltin := %s,
-    argsByRef := %s,
+    argsByRefCall := %s,
+    argsByRefBin := %s,
+    argsByRefBuiltin := %s,
     exitSteps := %s,
     ifSteps := %s,
     recoverReadsAnc := %s,
@@ -369,7 +405,7 @@ def facts : UnwindFacts :=
     executeRecovers := %s,
     executeCarriesValue := %s }
 end YaegiVerif.Generated.C06
-`, common.LeanStrList(notes), hashes, pCall, pBin, pBuiltin, argsByRef, stepList(exitSteps), stepList(ifSteps), readsAnc, clears, panicPasses,
+`, common.LeanStrList(notes), hashes, pCall, pBin, pBuiltin, refCall, refBin, refBuiltin, stepList(exitSteps), stepList(ifSteps), readsAnc, clears, panicPasses,
 			execRecovers, execCarries), nil
 	})
 }
